@@ -128,9 +128,9 @@ struct ListTargetT
 	static void qtrigger(T & t, int, int v) { t(v); }
 	template <typename F> static void forEach(T & t, int, F f) { t.forEach(f); }
 	template <typename L> static Handle cadd(T & t, int, int how, const L & l, const Handle & b, int n)
-	{ eventpp::CounterRemover<T> cr(t); return how == 0 ? cr.append(l, n) : how == 1 ? cr.prepend(l, n) : cr.insert(l, b, n); }
+	{ eventpp::CounterRemover<T> cr(t); return how == 0 ? eventpp::counterRemover(t).append(l, n) : how == 1 ? cr.prepend(l, n) : cr.insert(l, b, n); }   // (the factory function too)
 	template <typename L, typename C> static Handle xadd(T & t, int, int how, const L & l, const Handle & b, const C & c)
-	{ eventpp::ConditionalRemover<T> xr(t); return how == 0 ? xr.append(l, c) : how == 1 ? xr.prepend(l, c) : xr.insert(l, b, c); }
+	{ eventpp::ConditionalRemover<T> xr(t); return how == 0 ? eventpp::conditionalRemover(t).append(l, c) : how == 1 ? xr.prepend(l, c) : xr.insert(l, b, c); }
 };
 typedef ListTargetT<PolDefault, false> ListTarget;
 typedef ListTargetT<PolSpinSim, true> SpinListTarget;
@@ -151,9 +151,9 @@ struct DispTargetT
 	static void qtrigger(T & t, int k, int v) { qtrig(t, k, v, (char (*)[queue + 1])nullptr); }
 	template <typename F> static void forEach(T & t, int k, F f) { t.forEach(k, f); }
 	template <typename L> static Handle cadd(T & t, int k, int how, const L & l, const Handle & b, int n)
-	{ eventpp::CounterRemover<T> cr(t); return how == 0 ? cr.appendListener(k, l, n) : how == 1 ? cr.prependListener(k, l, n) : cr.insertListener(k, l, b, n); }
+	{ eventpp::CounterRemover<T> cr(t); return how == 0 ? cr.appendListener(k, l, n) : how == 1 ? eventpp::counterRemover(t).prependListener(k, l, n) : cr.insertListener(k, l, b, n); }
 	template <typename L, typename C> static Handle xadd(T & t, int k, int how, const L & l, const Handle & b, const C & c)
-	{ eventpp::ConditionalRemover<T> xr(t); return how == 0 ? xr.appendListener(k, l, c) : how == 1 ? xr.prependListener(k, l, c) : xr.insertListener(k, l, b, c); }
+	{ eventpp::ConditionalRemover<T> xr(t); return how == 0 ? xr.appendListener(k, l, c) : how == 1 ? eventpp::conditionalRemover(t).prependListener(k, l, c) : xr.insertListener(k, l, b, c); }
 private:
 	static void qtrig(T & t, int k, int v, char (*)[2]) { t.enqueue(k, v); t.process(); }
 	static void qtrig(T & t, int k, int v, char (*)[1]) { t.dispatch(k, v); }
